@@ -3,6 +3,7 @@ package checks
 import (
 	"fmt"
 	"math/bits"
+	"strings"
 	"sync/atomic"
 
 	"verif/internal/cpuh"
@@ -21,6 +22,17 @@ import (
 type progSym struct {
 	name string
 	gen  func(p byte) []byte // instruction bytes given the current status register
+}
+
+// symIntr: pending interrupt a symbol raises before its step (0 none, 2 NMI, 3 IRQ); lockstep searches only
+func symIntr(name string) byte {
+	switch {
+	case strings.HasPrefix(name, "NMI pending"):
+		return 2
+	case strings.HasPrefix(name, "IRQ pending"):
+		return 3
+	}
+	return 0
 }
 
 func immM(op byte, lo, hi byte) func(p byte) []byte {
@@ -66,6 +78,15 @@ func progAlphabet(withDecimal bool) []progSym {
 		s = append(s, progSym{"SED", fixed(0xF8)}, progSym{"SBC #$0199", immM(0xE9, 0x99, 0x01)}, progSym{"ADC #$1299", immM(0x69, 0x99, 0x12)}, progSym{"LDA #$0905", immM(0xA9, 0x05, 0x09)})
 	}
 	return s
+}
+
+// progAlphabetInt is the lockstep alphabet: decimal arithmetic plus pending interrupts.
+func progAlphabetInt() []progSym {
+	s := progAlphabet(true)
+	return append(s,
+		progSym{"NMI pending; NOP", fixed(0xEA)},
+		progSym{"IRQ pending; NOP", fixed(0xEA)},
+		progSym{"CLI", fixed(0x58)})
 }
 
 type progSeed struct {
@@ -174,7 +195,11 @@ func (e *progEnv) exec(si int) *progStepResult {
 	res.pre = e.cur
 	for i := 0; i < 2; i++ {
 		m := e.x.ms[i]
-		m.Load(e.cur[i])
+		pre := e.cur[i]
+		if in := symIntr(e.syms[si].name); in != 0 {
+			pre.Interrupt = in
+		}
+		m.Load(pre)
 		cy, st, pn := m.Step()
 		res.post[i] = implResult{m.Save(), cy, st, pn}
 		e.cur[i] = res.post[i].raw
